@@ -1,8 +1,13 @@
 (* C10 — the environment of the correspondence run (Robust/Env.v) only ever performs
    steps of the bus model: what [env_run] reports is the model's own run over the
    bus-side events it scheduled. *)
-From DV Require Import Lib.Base Wire.Message Robust.Bus Robust.Env.
+From DV Require Import Lib.Base Wire.Message Robust.Bus Robust.Env Gen.RobustTables.
 Local Open Scope N_scope.
+
+(* tie to the C text: the read sizes of Robust/Env.v were read off a loop of this shape
+   (tools/gen/robust.py re-examines dbus-transport-socket.c on every run) *)
+Lemma read_loop_shape_unchanged : READ_LOOP_SHAPE_OK = true.
+Proof. reflexivity. Qed.
 
 Section EnvOk.
   Context {A S O : Type}.
